@@ -40,12 +40,15 @@ func H_C16_round() {
 
 // H_C16_parse: ParseHdrLine assigns exactly refHdrType to the name it accepts
 // (W symbolic name bytes, optional blank before the colon).
-func H_C16_parse(n int, sp int) { c16parse(n, sp, 0) }
+func H_C16_parse(n int, sp int) { c16parse(n, sp, 0, false) }
 
 // H_C16_parse_at: the header line starts at offset k of the buffer.
-func H_C16_parse_at(n, sp, k int) { c16parse(n, sp, k) }
+func H_C16_parse_at(n, sp, k int) { c16parse(n, sp, k, false) }
 
-func c16parse(n, sp, k int) {
+// H_C16_parse_chunk: ... and arrives in two pieces (every cut).
+func H_C16_parse_chunk(n, sp, k int) { c16parse(n, sp, k, true) }
+
+func c16parse(n, sp, k int, chunked bool) {
 	name := vBytes(n)
 	buf := append([]byte(nil), name...)
 	if sp == 1 {
@@ -58,7 +61,16 @@ func c16parse(n, sp, k int) {
 		buf = vPad(k, []byte{'\r', '\n'}, buf)
 	}
 	var h Hdr
-	o, e := ParseHdrLine(buf, k, &h, nil)
+	o, e := k, ErrHdrMoreBytes
+	if chunked {
+		c := 1 + vChoice(len(buf)-k-1)
+		o, e = ParseHdrLine(buf[:k+c], k, &h, nil)
+		if e != ErrHdrMoreBytes {
+			h.Reset()
+			o = k
+		}
+	}
+	o, e = ParseHdrLine(buf, o, &h, nil)
 	vObs("o", o)
 	vObs("e", int(e))
 	if e == 0 && int(h.Name.Len) == n && int(h.Name.Offs) == k {
